@@ -57,17 +57,25 @@ pub struct Mock {
     off: usize,
     nonblocking: AtomicBool,
     shared: Arc<Mutex<Shared>>,
+    nreads: u64,
+    nwrites: u64,
+    partial: bool,
 }
 
 impl Mock {
     pub fn new(evs: Vec<Ev>) -> (Mock, Arc<Mutex<Shared>>) {
         let shared = Arc::new(Mutex::new(Shared { left: evs.len(), ..Default::default() }));
-        (Mock { evs: evs.into(), off: 0, nonblocking: AtomicBool::new(false), shared: shared.clone() }, shared)
+        (Mock { evs: evs.into(), off: 0, nonblocking: AtomicBool::new(false), shared: shared.clone(), nreads: 0, nwrites: 0, partial: false }, shared)
     }
 }
 
 impl Read for Mock {
     fn read(&mut self, buf: &mut [u8]) -> std::io::Result<usize> {
+        // a blocking read is now and then interrupted by a signal (EINTR): nothing is consumed, the caller must retry
+        self.nreads += 1;
+        if self.nreads % 3 == 2 && !self.nonblocking.load(Ordering::SeqCst) && matches!(self.evs.front(), Some(Ev::Data(_))) && !buf.is_empty() {
+            return Err(Error::new(ErrorKind::Interrupted, "interrupted"));
+        }
         loop {
             let r = match self.evs.front() {
                 None => Some(Ok(0)),
@@ -99,9 +107,22 @@ impl Read for Mock {
 }
 
 impl Write for Mock {
+    /// Every other call takes only the first half of what is offered (the continuation is appended to the same logical
+    /// write), every fifth is interrupted before taking anything: `write_all` copes, a bare `write` does not.
     fn write(&mut self, buf: &[u8]) -> std::io::Result<usize> {
-        self.shared.lock().unwrap().writes.push(buf.to_vec());
-        Ok(buf.len())
+        self.nwrites += 1;
+        if self.nwrites % 5 == 4 && !buf.is_empty() {
+            return Err(Error::new(ErrorKind::Interrupted, "interrupted"));
+        }
+        let n = if self.nwrites % 2 == 1 && buf.len() >= 2 { buf.len() / 2 } else { buf.len() };
+        let mut sh = self.shared.lock().unwrap();
+        if self.partial && !sh.writes.is_empty() {
+            sh.writes.last_mut().unwrap().extend_from_slice(&buf[..n]);
+        } else {
+            sh.writes.push(buf[..n].to_vec());
+        }
+        self.partial = n < buf.len();
+        Ok(n)
     }
     fn flush(&mut self) -> std::io::Result<()> {
         Ok(())
@@ -595,9 +616,27 @@ fn gen_script(rng: &mut Rng, allow_big: bool) -> Vec<CF> {
             _ => {
                 let text = rng.chance(1, 2);
                 let parts = if rng.chance(1, 2) { 1 } else { rng.range(2, 5) as usize };
+                // a third of the text messages is well-formed multi-byte UTF-8 cut into fragments at arbitrary BYTE offsets
+                // (a fragment may end inside a character: only the whole message is text)
+                let utf8_pieces: Option<Vec<Vec<u8>>> = if text && rng.chance(1, 3) {
+                    let nchars = rng.range(parts as u64, 40) as usize;
+                    let whole: String = (0..nchars).map(|_| *rng.pick(&['a', '\u{e9}', '\u{df}', '\u{4e2d}', '\u{2713}', '\u{1f600}', ' ', '\u{7ff}', '\u{800}', '\u{10000}'])).collect();
+                    let b = whole.into_bytes();
+                    let mut cuts: Vec<usize> = (0..parts - 1).map(|_| rng.below(b.len() as u64 + 1) as usize).collect();
+                    cuts.sort();
+                    let mut pieces = Vec::new();
+                    let mut prev = 0;
+                    for c in cuts { pieces.push(b[prev..c].to_vec()); prev = c; }
+                    pieces.push(b[prev..].to_vec());
+                    Some(pieces)
+                } else {
+                    None
+                };
                 for i in 0..parts {
-                    let n = data_len(rng, &mut big);
-                    let p = rand_payload(rng, n, text);
+                    let p = match &utf8_pieces {
+                        Some(ps) => ps[i].clone(),
+                        None => { let n = data_len(rng, &mut big); rand_payload(rng, n, text) }
+                    };
                     let op = if i == 0 {
                         if text { TEXT } else { BIN }
                     } else if rng.chance(1, 40) {
